@@ -85,4 +85,42 @@ def interp (raw width : Nat) (signed : Bool) : Int :=
   let r := raw % 2 ^ width
   if signed ∧ width > 0 ∧ r ≥ 2 ^ (width - 1) then (r : Int) - ((2 ^ width : Nat) : Int) else (r : Int)
 
+/-! ### the per-thread table (`RandomTable`, `reset`, `with_rng`) -/
+
+/-- `RandomTable { base_seed, rngs: HashMap<StrId, (Pcg64, u64)> }`; `γ` is the generator state.
+Handles are identified by their name (the `StrId` of the declaring variable). -/
+structure Table (γ : Type) where
+  base : Nat
+  rngs : List (List Nat × γ)
+
+/-- `reset(base_seed)`: record the base seed, clear all generators. -/
+def Table.reset {γ : Type} (base : Nat) : Table γ := { base := base, rngs := [] }
+
+/-- The generator of `name`: the stored one, or (`or_insert_with`) a fresh one seeded by
+`derive_seed(base, name)`; `mk` is `Pcg64::seed_from_u64`. -/
+def Table.rngOf {γ : Type} (offset prime : Nat) (mk : Nat → γ) (t : Table γ) (name : List Nat) : γ :=
+  match t.rngs.lookup name with
+  | some g => g
+  | none => mk (deriveSeed offset prime t.base name)
+
+/-- `with_rng(key, f)`: run `f` on the handle's generator and store the advanced state. -/
+def Table.withRng {γ α : Type} (offset prime : Nat) (mk : Nat → γ) (t : Table γ) (name : List Nat)
+    (f : γ → γ × α) : Table γ × α :=
+  let r := f (t.rngOf offset prime mk name)
+  ({ t with rngs := (name, r.1) :: t.rngs.filter (fun p => p.1 != name) }, r.2)
+
+/-- A run: draws `(handle name, request)` in program order; `draw` is one sampler call on a
+generator state.  Returns the values drawn, in order, tagged with their handle. -/
+def Table.run {γ ρ α : Type} (offset prime : Nat) (mk : Nat → γ) (draw : ρ → γ → γ × α) :
+    Table γ → List (List Nat × ρ) → List (List Nat × α)
+  | _, [] => []
+  | t, (name, req) :: rest =>
+    let r := t.withRng offset prime mk name (draw req)
+    (name, r.2) :: Table.run offset prime mk draw r.1 rest
+
+/-- The same draws on one standalone generator. -/
+def drawAll {γ ρ α : Type} (draw : ρ → γ → γ × α) : γ → List ρ → List α
+  | _, [] => []
+  | g, req :: rest => let r := draw req g; r.2 :: drawAll draw r.1 rest
+
 end VerylModel.Random
